@@ -20,7 +20,7 @@ theorem guard_first (deep : Bool) (m : Model) (dir name : String) (verbose : Boo
     (hsig : m.sig[i]? = some (n, sub)) (hcv : m.cv[i]? = some none) (hscope : deep = true ∨ sub = false) :
     (runSave deep m dir name verbose fs k).res = .error .valueError ∧
     (runSave deep m dir name verbose fs k).st = init m fs k := by
-  have h := save_guard deep m.sig dir name verbose (init m fs k)
+  have h := save_guard deep m.sig m.tnames dir name verbose (init m fs k)
     (guardHits_hit deep m.sig m.cv i n sub hsig hcv hscope)
   unfold runSave
   rw [h]
@@ -55,12 +55,12 @@ theorem model_unchanged_partial (deep : Bool) (m : Model) (dir name : String) (v
     (hdest : ∀ (id : Nat) (f : String) (o l : Nat) (v : Bool),
       m.heap[id]? = some (.ext f o l v) → f ≠ joinPath dir (name ++ ".data")) :
     (runSave deep m dir name verbose fs k).model m = m := by
-  have hinv := inv_save deep m.sig dir name verbose
+  have hinv := inv_save deep m.sig m.tnames dir name verbose
     (stable_orig m.heap (joinPath dir (name ++ ".data")) (joinPath dir name) hdest) (init m fs k)
     (fun id t h => h)
-  have hcv := save_cv deep m.sig dir name verbose (init m fs k)
+  have hcv := save_cv deep m.sig m.tnames dir name verbose (init m fs k)
   unfold runSave Result.model
-  cases hs : save deep m.sig dir name verbose (init m fs k) with
+  cases hs : save deep m.sig m.tnames dir name verbose (init m fs k) with
   | mk r s' =>
     rw [hs] at hinv hcv
     simp only [] at hinv hcv ⊢
@@ -79,7 +79,7 @@ theorem model_unchanged_partial (deep : Bool) (m : Model) (dir name : String) (v
     | mk sig cv heap =>
       simp only [init] at hcv
       simp only [Model.mk.injEq, true_and]
-      exact ⟨hcv, hheap⟩
+      exact ⟨hcv, hheap, trivial⟩
 
 example : ∃ (m : Model), m.heap ≠ [] ∧ ∀ (id : Nat) (f : String) (o l : Nat) (v : Bool),
     m.heap[id]? = some (.ext f o l v) → f ≠ joinPath "" ("m.onnx" ++ ".data") :=
@@ -95,9 +95,9 @@ example : ∃ (m : Model), m.heap ≠ [] ∧ ∀ (id : Nat) (f : String) (o l : 
 file system and fault plan. -/
 theorem const_values_restored (deep : Bool) (m : Model) (dir name : String) (verbose : Bool) (fs : FS) (k : Option Nat) :
     ((runSave deep m dir name verbose fs k).model m).cv = m.cv := by
-  have hcv := save_cv deep m.sig dir name verbose (init m fs k)
+  have hcv := save_cv deep m.sig m.tnames dir name verbose (init m fs k)
   unfold runSave Result.model
-  cases hs : save deep m.sig dir name verbose (init m fs k) with
+  cases hs : save deep m.sig m.tnames dir name verbose (init m fs k) with
   | mk r s' => rw [hs] at hcv; exact hcv
 
 /-- The full statement (no hypothesis on where external tensors live) is false: a 300-byte initializer that is
@@ -117,11 +117,11 @@ theorem model_unchanged_full_refuted :
 theorem fs_frame (deep : Bool) (m : Model) (dir name : String) (verbose : Bool) (fs : FS) (k : Option Nat)
     (p : String) (h1 : p ≠ joinPath dir (name ++ ".data")) (h2 : p ≠ joinPath dir name) :
     FS.get? (runSave deep m dir name verbose fs k).st.fs p = FS.get? fs p := by
-  have hinv := inv_save deep m.sig dir name verbose
+  have hinv := inv_save deep m.sig m.tnames dir name verbose
     (stable_frame fs (joinPath dir (name ++ ".data")) (joinPath dir name)) (init m fs k)
     (fun _ _ _ => rfl)
   unfold runSave
-  cases hs : save deep m.sig dir name verbose (init m fs k) with
+  cases hs : save deep m.sig m.tnames dir name verbose (init m fs k) with
   | mk r s' => rw [hs] at hinv; exact hinv p h1 h2
 
 /-- **Tensors stay backed by their original data**: an external tensor whose file is neither of the two destination
